@@ -375,3 +375,57 @@ Theorem C10_factory_chain_refines_spec : forall O a o, canonical_check = true ->
   forall l, unforged O o l -> Forall2 ok_at (grun_chain O o None l) (spec_chain O o None true l).
 Proof. exact factory_chain_refines_spec. Qed.
 Print Assumptions C10_factory_chain_refines_spec.
+
+(* ================================================================== calls of the factory (round 6): the order of
+   the parameters in the signature and the defaults are regenerated from the source *)
+Theorem C10_generated_signature_is_documented : gen_sig = doc_sig /\ gen_defaults = doc_defaults.
+Proof. exact gen_sig_is_doc. Qed.
+Print Assumptions C10_generated_signature_is_documented.
+
+(* positional, keyword or omitted: the factory built is the documented reading of the call (each parameter has the
+   value the caller gave for it, else the documented default), converted as C10_factory_is_spec says *)
+Theorem C10_factory_call_is_spec : forall c, wf_call c -> gfactory_call c = spec_factory_call c.
+Proof. exact gfactory_call_is_spec. Qed.
+Print Assumptions C10_factory_call_is_spec.
+
+Theorem C10_factory_call_positional_is_keyword : forall c c', wf_call c -> wf_call c' -> c_vals c = c_vals c' ->
+  gfactory_call c = gfactory_call c'.
+Proof. exact positional_is_keyword. Qed.
+Print Assumptions C10_factory_call_positional_is_keyword.
+
+(* ================================================================== request plumbing (round 6): regenerated from
+   pyramid/request.py -- add_response_callback, _process_response_callbacks, Request.session *)
+Theorem C10_generated_add_cb_is_model : forall q c, gen_add_cb q c = q ++ [c].
+Proof. exact gen_add_cb_is_model. Qed.
+Print Assumptions C10_generated_add_cb_is_model.
+
+(* every queued callback is called once, oldest first *)
+Theorem C10_generated_process_cbs_is_model : forall (A : Type) (call : cb -> A -> A) q a,
+  gen_process_cbs call q a = fold_left (fun a c => call c a) q a.
+Proof. exact (@gen_process_cbs_is_model). Qed.
+Print Assumptions C10_generated_process_cbs_is_model.
+
+Theorem C10_generated_request_session_is_model : forall (A : Type) (f : unit -> A),
+  gen_request_session (Some f) = Some (f tt) /\ @gen_request_session A None = None.
+Proof. intros A f. split; [exact (gen_request_session_is_model f)|exact gen_request_session_none]. Qed.
+Print Assumptions C10_generated_request_session_is_model.
+
+(* whatever other response callbacks the application registers before or after it uses the session: the session's
+   own callback runs exactly once iff the session is dirty, and the cookie is the one _set_cookie computes *)
+Theorem C10_request_callbacks_run_session_once : forall O o s exc n, gfinish_q O o s exc n = finish O o s exc.
+Proof. exact gfinish_q_is_model. Qed.
+Print Assumptions C10_request_callbacks_run_session_once.
+
+(* the cookie attributes (name, path, domain, secure, httponly, samesite) reach the session class as the caller gave
+   them or as documented by default: unchanged, uncrossed (regenerated: the factory's call of BaseCookieSessionFactory
+   and the _cookie_name .. _cookie_samesite class attributes) *)
+Theorem C10_factory_call_attrs : forall c, wf_call c -> gfactory_call c <> FacRaise -> gfactory_call c <> FacUnm ->
+  gcall_attrs c = doc_attrs c.
+Proof. exact factory_call_attrs. Qed.
+Print Assumptions C10_factory_call_attrs.
+
+(* Router.invoke_request (regenerated): the response callbacks run once the response exists, so the cookie the
+   request ends with is the one _set_cookie computes iff the session is dirty *)
+Theorem C10_router_invokes_callbacks : forall O o s exc n, gfinish_r O o s exc n = finish O o s exc.
+Proof. exact gfinish_r_is_model. Qed.
+Print Assumptions C10_router_invokes_callbacks.
